@@ -5,6 +5,7 @@ import json, os, re, sys
 M = sys.argv[1]
 lo, hi = (int(sys.argv[2]), int(sys.argv[3])) if len(sys.argv) > 3 else (1, 99)
 DESC = {
+ 'C01-12': 'comma lost in the void table (`sourcetrack`)', 'C01-13': 'CR escaped as `&#10;` in the attribute table', 'C01-14': '`copy` dropped in `HTMLDocument.__copy__`', 'C01-15': 'void test reads `self.children` (unfiltered)', 'C02-12': '`html_escape` slow path always uses the attribute table', 'C02-13': 'numbers stored with `repr()`', 'C02-14': '`+=` uses `super().extend`', 'C02-15': 'display hook drops falsy values (`value and ...`)', 'C03-12': 'CR escaped as `&#10;`', 'C03-13': '`attr=True` lost in one merge branch', 'C03-14': '`x in (None, False)` drops zero', 'C03-15': '`__setitem__` stores the raw value', 'C04-12': '`html_escape` default flipped to `attr=True`', 'C04-13': 'no-escape fast path prints `self.children[0]`', 'C04-14': 'plain value merged after `HTML()` escaped with text rules', 'C04-15': 'display hook drops the `HTML()` wrap', 'C05-12': 'state reset lost after a `_repr_html_` child', 'C05-13': '`wbr` dropped from the inline table (script and tags.py)', 'C05-14': 'void test reads `self.children`', 'C05-15': '`svg.a` does not forward `_add_ws`', 'C06-12': '`TagList.get_html_string` default `add_ws=False`', 'C06-13': 'one-line rule reads `self.children[0]`', 'C06-14': '`tags.wbr` default flipped', 'C06-15': 'LF entry dropped from the attribute escape table', 'C07-12': 'void test reads `self.children`', 'C07-13': 'JSX renderer skips only `HTMLDependency`', 'C07-14': 'extraction pattern lost its final `>`', 'C07-15': '`_equals_impl` returns True for different classes', 'C08-12': '`JSXTag.__copy__` updates from `self.__dict__`', 'C08-13': '`Tag.render` collects dependencies from `self`', 'C08-14': '`copy_to` clears the target only `if isfile`', 'C08-15': 'JSX visitor copies only non-metadata values', 'C09-12': '`TagList.tagify`: `cp = self`', 'C09-13': '`Tag.render`: dependencies from `self`', 'C09-14': 'document case test reads `len(self._content)`', 'C09-15': '`raise` keyword lost before `RuntimeError(...)`', 'C10-12': '`>=` on version ties', 'C10-13': '`if source:` skips validation of falsy sources', 'C10-14': '`dedup` not forwarded by `Tag.get_dependencies`', 'C10-15': '`TagList.render`: dependencies from `self`', 'C11-12': 'lone-`<body>` test `len(content) >= 1`', 'C11-13': 'link tags before meta tags', 'C11-14': '`TagList.tagify`: `cp = self`', 'C11-15': 'void test reads `self.children`', 'C12-12': 'stale target cleared only `if isfile`', 'C12-13': '`Tag.save_html` lost its `return`', 'C12-14': "`quote(src, safe='/%')` for scripts", 'C12-15': '`Tag.render` collects with `dedup=False`', 'C13-12': 'only lower-case `</s` neutralised', 'C13-13': '`break` for `continue` on a repeated serialisation', 'C13-14': '`replace` lost its count', 'C13-15': 'json mode serialises `x.get_dependencies()`', 'C14-12': '`+=` extends `self.data` directly', 'C14-13': '`int` dropped from `is_tag_child`', 'C14-14': '`TagList.tagify`: `cp = self`', 'C14-15': '`JSXTag.extend` calls `append(*x)`', 'C15-12': '`__setitem__` stores under the raw name', 'C15-13': '`x in (None, False)` drops zero', 'C15-14': 'merge test `if attrz.get(nm)`', 'C15-15': '`consolidate_attrs` filters with `type(x) is not dict`', 'C16-12': '`css` drops falsy values', 'C16-13': '`remove_class` filters by substring', 'C16-14': '`add_style` guard checks `str` only', 'C16-15': "`has_class` splits on `' '`", 'C17-12': 'Ellipsis no longer ignored', 'C17-13': 'normaliser tests `is_tag_child`', 'C17-14': 'hand-over before the saved hook is cleared', 'C17-15': 're-entry guard by truthiness', 'C18-12': '`JSXTag.__copy__` without `copy`', 'C18-13': '`HTMLTextDocument(deps=[])` mutable default', 'C18-14': "digest of `encode('ascii', 'ignore')`", 'C18-15': '`TagList.get_dependencies` default `dedup=False`', 'C19-12': 'falsy non-bool `_add_ws` accepted', 'C19-13': '`template` default flipped', 'C19-14': '`feFuncB` creates `feFuncG`', 'C19-15': '`source` drops `*args`', 'C20-12': 'quote escaping became a no-op', 'C20-13': '`JSXTagAttrDict.__setitem__` stores under the raw name', 'C20-14': 'prop values not walked recursively', 'C20-15': '`JSXTag.__copy__` without `copy`',
  "C01-8": "void-ness cached at construction (stale after `.name` is reassigned)", "C01-9": "`html_escape` leaves numeric character references alone",
  "C01-10": "void table re-packed with one comma lost (`trackwbr`)", "C01-11": "`HTMLDocument` rebuilds `<head>` and drops its attributes",
  "C02-8": "precompiled fast-path pattern `[&<]` misses a lone `>`", "C02-9": "escape flag became process-wide state (not restored after an exception)",
